@@ -298,6 +298,12 @@ def iatom_equal(a, b, F):
 
 
 # ------------------------------------------------------------------ cipher
+def rec_unfold_out(rid, idx, F):
+    """out_idx of recurrence rid written out one step: out template with st := state(idx)."""
+    r = REC[rid]
+    return bsubst(r["out"], {"$rs": rec_state(rid, idx, F)}, {"$ri": lin(idx)}, F)
+
+
 def mkcipher(kind, b, F):
     b = bnorm(b, F)
     inv = "D" if kind == "E" else "E"
@@ -305,6 +311,15 @@ def mkcipher(kind, b, F):
         (a, o), = b[0][2]
         if a[0] == inv and o == ZERO and F.prove_eq(blen(a[1]) - b[0][1]):
             return a[1]
+        if a[0] == "rec" and a[2] == "out" and o == ZERO and F.prove_eq(REC[a[1]]["elen"] - b[0][1]):
+            try:
+                u = rec_unfold_out(a[1], a[3], F)
+            except Undecided:
+                u = None
+            if u is not None and len(u) == 1 and u[0][0] == "x" and len(u[0][2]) == 1:
+                (a2, o2), = u[0][2]
+                if a2[0] == inv and o2 == ZERO:
+                    return a2[1]
     return batom((kind, b), blen(b))
 
 
@@ -695,7 +710,7 @@ def bequal_syn(a, b):
 def _find_index_cond(t, var):
     for p in t:
         if p[0] == "i":
-            if var in csyms(p[1]) and p[1][0] in ("eq", "ne", "lt", "ge"):
+            if p[1][0] in ("eq", "ne", "lt", "ge"):
                 return p[1]
             c = _find_index_cond(p[3], var) or _find_index_cond(p[4], var)
             if c:
@@ -716,6 +731,25 @@ def _split_map_ite(p, F):
         return None
     l = c[1]
     v = Lin.sym(var)
+    if var not in l.symbols():
+        # condition does not depend on the index: hoist it out of the map
+        F1 = F.copy()
+        F1.add_cond(c)
+        F0 = F.copy()
+        F0.add_cond(neg_cond(c))
+        if F1.inconsistent() or F0.inconsistent():
+            return None
+        Fa = F1.copy()
+        Fa.add_ge(v - lo)
+        Fa.add_ge(hi - 1 - v)
+        Fb = F0.copy()
+        Fb.add_ge(v - lo)
+        Fb.add_ge(hi - 1 - v)
+        ta = bnorm(t, Fa)
+        tb = bnorm(t, Fb)
+        if ta == t and tb == t:
+            return None
+        return (("i", c, (hi - lo) * el, bnorm((("m", var, lo, hi, el, ta),), F1), bnorm((("m", var, lo, hi, el, tb),), F0)),)
     co = l.terms().get((var,), 0)
     if co not in (1, -1):
         return None
@@ -732,6 +766,8 @@ def _split_map_ite(p, F):
         return _mkmap(var, a, b, el, bnorm(t, F2), F)
 
     if c[0] in ("eq", "ne"):
+        if not F.prove_ge(hi - lo - 1):
+            return None      # possibly empty map: cannot peel an element off
         if F.prove_eq(val - lo):
             a = binst(t, var, lo, F)
             return tuple(a) + tuple(part(lo + 1, hi, []))
